@@ -107,6 +107,37 @@ def replay(p):
             ref = d[:, None] * V * d[None, :]
             err = float(np.max(np.abs(np.asarray(out, dtype=float) - ref)))
             return {"reproduced": bool(err > 1e-5 * (1 + np.max(np.abs(ref)))), "error_magnitude": err}
+        if kind == "params_trans_vector":
+            import tensorflow as tf
+            from tf_pwa.params_trans import ParamsTrans
+            from tf_pwa.variable import VarsManager
+
+            vm = VarsManager(dtype=tf.float64)
+            th = {"a": g("th_a", 1.5), "b": g("th_b", 0.7), "c": g("th_c", 2.0), "f": g("th_f", 0.4)}
+            for n in ("a", "b", "c", "f"):
+                vm.add_real_var(n, value=th[n])
+            vm.set_fix("f")
+            for n in ("a", "b", "c", "f"):
+                vm.variables[n].assign(th[n])
+            V = np.zeros((3, 3))
+            dflt = [[0.04, 0.01, 0.0], [0.01, 0.09, -0.02], [0.0, -0.02, 0.16]]
+            for i in range(3):
+                for k in range(i, 3):
+                    V[i, k] = V[k, i] = g("V_%d%d" % (i, k), dflt[i][k])
+            pt = ParamsTrans(vm, tf.convert_to_tensor(V))
+            with pt.trans() as q:
+                a, b, c = q["a"], q["b"], q["c"]
+                yv = tf.stack([a * b, a + c * c])
+            J = np.array([[th["b"], th["a"], 0.0], [1.0, 0.0, 2 * th["c"]]])
+            ref = J @ V @ J.T
+            try:
+                out = np.asarray(pt.get_error_matrix(yv, keep=True), dtype=float)
+            except Exception as e:
+                return {"reproduced": bool(p.get("expect_raise")), "raised": "%s: %s" % (type(e).__name__, str(e)[:200])}
+            if out.shape != ref.shape:
+                return {"reproduced": True, "shape": list(out.shape)}
+            err = float(np.max(np.abs(out - ref)))
+            return {"reproduced": bool(err > 1e-9 * (1 + np.max(np.abs(ref)))), "error_magnitude": err, "returned": out.tolist(), "J_V_JT": ref.tolist()}
     except Exception as e:
         return {"reproduced": False, "error": "%s: %s" % (type(e).__name__, str(e)[:300])}
     return {"reproduced": False, "error": "unknown kind %s" % kind}
